@@ -392,17 +392,35 @@ func c10Composition(p *Prog, r *Report) {
 		return
 	}
 	info := cs.Pkg.TypesInfo
-	f := p.FlatOf(cs)
-	// the literal
-	var lit *ast.CompositeLit
+	f := p.FlatInl(cs)
+	// the literal: in Store itself, in a helper spliced into its graph, or in (a helper of) one of its function
+	// literals -- the deferred closure that turns the error into the retry request
+	flats := []*Flat{f}
 	ast.Inspect(cs.Decl.Body, func(x ast.Node) bool {
-		if cl, ok := x.(*ast.CompositeLit); ok {
-			if tv, ok := info.Types[cl]; ok && strings.HasSuffix(tv.Type.String(), tNES) {
-				lit = cl
-			}
+		if fl, ok := x.(*ast.FuncLit); ok {
+			lf := p.NewFlatInl(cs, fl.Body)
+			lf.Outer = f
+			flats = append(flats, lf)
 		}
 		return true
 	})
+	var lit *ast.CompositeLit
+	var lf *Flat
+	for _, g := range flats {
+		for _, n := range g.Nodes {
+			if n.Ast == nil || lit != nil {
+				continue
+			}
+			ast.Inspect(n.Ast, func(x ast.Node) bool {
+				if cl, ok := x.(*ast.CompositeLit); ok {
+					if tv, ok := info.Types[cl]; ok && strings.HasSuffix(tv.Type.String(), tNES) {
+						lit, lf = cl, g
+					}
+				}
+				return true
+			})
+		}
+	}
 	if lit == nil {
 		r.Viol("C10.b", kContentStore+"#literal", p.pos(cs.Decl), "content.Store no longer builds a NotEnoughSpaceError: a full root cannot be retried elsewhere")
 		return
@@ -417,11 +435,11 @@ func c10Composition(p *Prog, r *Report) {
 	}
 	// the created file
 	creates := f.CallSites("internal/utils/os.Create")
-	var fileObj types.Object
+	filePath := ""
 	for _, c := range creates {
 		n := f.Nodes[c.Node]
 		if as, ok := n.Ast.(*ast.AssignStmt); ok && len(as.Lhs) >= 1 {
-			fileObj = objOf(info, as.Lhs[0])
+			filePath = f.CanonPath(as.Lhs[0])
 		}
 	}
 	// the copy
@@ -437,26 +455,25 @@ func c10Composition(p *Prog, r *Report) {
 			}
 		}
 	}
-	if fileObj == nil || copyCall == nil {
+	if filePath == "" || copyCall == nil {
 		r.Undecided("C10.b", kContentStore, p.pos(cs.Decl), "os.Create / io.Copy anchors not found")
 		return
 	}
 	// Start = the file
-	r.Check(fields["Start"] != nil && objOf(info, fields["Start"]) == fileObj, "C10.b", kContentStore+"#Start", p.pos(lit), "Start is the created file", "Start is not the file that received the prefix")
+	r.Check(fields["Start"] != nil && lf.CanonPath(fields["Start"]) == filePath, "C10.b", kContentStore+"#Start", p.pos(lit), "Start is the created file", "Start is not the file that received the prefix")
 	// End = the source handed to io.Copy
-	srcObj := objOf(info, copyCall.Args[1])
-	r.Check(fields["End"] != nil && srcObj != nil && objOf(info, fields["End"]) == srcObj, "C10.b", kContentStore+"#End", p.pos(lit), "End is the reader io.Copy was draining", "End is not the remaining source stream")
-	// writer variable and its type
-	var wObj types.Object
-	if u, ok := ast.Unparen(copyCall.Args[0]).(*ast.UnaryExpr); ok {
-		wObj = objOf(info, u.X)
-	} else {
-		wObj = objOf(info, copyCall.Args[0])
+	srcPath := f.CanonPath(copyCall.Args[1])
+	r.Check(fields["End"] != nil && srcPath != "" && lf.CanonPath(fields["End"]) == srcPath, "C10.b", kContentStore+"#End", p.pos(lit), "End is the reader io.Copy was draining", "End is not the remaining source stream")
+	// writer and its type
+	wPath := f.CanonPath(copyCall.Args[0])
+	var wType types.Type
+	if tv, ok := info.Types[copyCall.Args[0]]; ok {
+		wType = tv.Type
 	}
 	midFields := map[string]bool{}
-	if fields["Middle"] != nil {
+	if fields["Middle"] != nil && wPath != "" {
 		ast.Inspect(fields["Middle"], func(x ast.Node) bool {
-			if sel, ok := x.(*ast.SelectorExpr); ok && objOf(info, sel.X) == wObj && wObj != nil {
+			if sel, ok := x.(*ast.SelectorExpr); ok && lf.rawPath(sel.X) == wPath {
 				midFields[sel.Sel.Name] = true
 			}
 			return true
@@ -469,7 +486,7 @@ func c10Composition(p *Prog, r *Report) {
 		st := f.ErrStatesFrom(copyNode, bs.ErrVar)
 		seeks := f.Match(func(n *GNode) bool {
 			for _, c := range callsIn(n.Ast, false) {
-				if sel, ok := c.Fun.(*ast.SelectorExpr); ok && sel.Sel.Name == "Seek" && objOf(info, sel.X) == fileObj && len(c.Args) == 2 {
+				if sel, ok := c.Fun.(*ast.SelectorExpr); ok && sel.Sel.Name == "Seek" && f.CanonPath(sel.X) == filePath && len(c.Args) == 2 {
 					if v, ok := constInt(info, c.Args[0]); ok && v == 0 {
 						if w, ok := constInt(info, c.Args[1]); ok && w == 0 {
 							return true
@@ -501,15 +518,14 @@ func c10Composition(p *Prog, r *Report) {
 		}
 	}
 	// C10.c: the inner write count reaches a field Middle depends on
-	c10PartialWrite(p, r, cs, wObj, midFields, lit)
+	c10PartialWrite(p, r, cs, wType, midFields, lit)
 }
 
-func c10PartialWrite(p *Prog, r *Report, cs *FuncInfo, wObj types.Object, midFields map[string]bool, lit *ast.CompositeLit) {
-	if wObj == nil {
+func c10PartialWrite(p *Prog, r *Report, cs *FuncInfo, t types.Type, midFields map[string]bool, lit *ast.CompositeLit) {
+	if t == nil {
 		r.Undecided("C10.c", kContentStore+"#partial-write", p.pos(lit), "writer variable not identified")
 		return
 	}
-	t := wObj.Type()
 	if pt, ok := t.(*types.Pointer); ok {
 		t = pt.Elem()
 	}
